@@ -209,3 +209,100 @@ Theorem C01_overwrite_touches_only_receiver : forall q (s : state q) (o : op) (g
     sc q s' = sc q s.
 Proof. exact overwrite_touches_only_receiver. Qed.
 Print Assumptions C01_overwrite_touches_only_receiver.
+
+(* ---- the dlog model of Algebra/Grp.v IS the subgroup generated by the Ed25519
+   base point (CurveRef/EdOrder.v).  L.B = (0,1) is obtained by running the
+   extended-coordinate ladder of the reference model over zq (2^255-19) itself
+   (vm_compute, about 30 s, no BigZ) and transporting the result through
+   C01_ed25519_reference_ladder, so the statement is about the iterated affine
+   law; L is prime (Pocklington), B <> (0,1), hence the order of B is exactly L.
+   Ed_phi k = (val k).B is an injective homomorphism from zq L (the dlog model at
+   q = L) to the curve group that carries every operation of Algebra/Grp.v to the
+   corresponding curve operation; the executable reference operations refine it;
+   the small-order points (0,-1) and (sqrt(-1),0) are on the curve and outside
+   the image. *)
+From Kyber Require Import CurveRef.EdOrder.
+
+Theorem C01_ed25519_base_point_order :
+  ed_L = 2 ^ 252 + 27742317777372353535851937790883648493 /\ Znumtheory.prime ed_L /\
+  ed_on_curve_pt Ed_B /\ Ed_B <> (zzero, zone) /\
+  (zmul (snd Ed_B) (of_Z ed_p 5) = of_Z ed_p 4 /\ val (fst Ed_B) mod 2 = 0) /\
+  ed_nmul (Z.to_nat ed_L) Ed_B = (zzero, zone) /\
+  ed_valid (ed_mul OEd KEd ed_L (ed_base OEd KEd)) (zzero, zone) /\
+  (forall n : nat, ed_nmul n Ed_B = (zzero, zone) <-> (ed_L | Z.of_nat n)) /\
+  (forall k : Z, Ed_zmul k Ed_B = (zzero, zone) <-> (ed_L | k)).
+Proof. exact Ed25519_base_point_order. Qed.
+Print Assumptions C01_ed25519_base_point_order.
+
+Theorem C01_ed25519_dlog_model_faithful :
+  (forall a : zq ed_L, ed_on_curve_pt (Ed_phi a)) /\
+  Ed_phi pzero = (zzero, zone) /\
+  Ed_phi pbase = Ed_B /\
+  (forall a b, Ed_phi (padd a b) = Ed_padd (Ed_phi a) (Ed_phi b)) /\
+  (forall a, Ed_phi (pneg a) = Ed_pneg (Ed_phi a)) /\
+  (forall a b, Ed_phi (psub a b) = Ed_padd (Ed_phi a) (Ed_pneg (Ed_phi b))) /\
+  (forall s a, Ed_phi (smul s a) = ed_nmul (Z.to_nat (val s)) (Ed_phi a)) /\
+  (forall l, Ed_phi (psum l) = fold_right (fun P acc => Ed_padd P acc) (zzero, zone) (map Ed_phi l)) /\
+  (forall cs ps, Ed_phi (lincomb cs ps) =
+      fold_right (fun P acc => Ed_padd P acc) (zzero, zone)
+        (map (fun cp => ed_nmul (Z.to_nat (val (fst cp))) (Ed_phi (snd cp))) (combine cs ps))) /\
+  (forall a b, Ed_phi a = Ed_phi b -> a = b) /\
+  (forall a b, peqb a b = true <-> Ed_phi a = Ed_phi b) /\
+  (forall k : Z, Ed_phi (of_Z ed_L k) = Ed_zmul k Ed_B).
+Proof. exact ed25519_dlog_model_faithful. Qed.
+Print Assumptions C01_ed25519_dlog_model_faithful.
+
+(* the executable reference operations, on ANY extended-coordinate representations
+   of Ed_phi-values, compute Ed_phi of the dlog-model operation; the projective
+   equality test and the 32-byte encoding decide equality of logarithms *)
+Theorem C01_ed25519_dlog_model_refined_by_reference :
+  ed_valid (ed_zero OEd) (Ed_phi pzero) /\
+  ed_valid (ed_base OEd KEd) (Ed_phi pbase) /\
+  (forall P Q a b, ed_valid P (Ed_phi a) -> ed_valid Q (Ed_phi b) ->
+     ed_valid (ed_add OEd KEd P Q) (Ed_phi (padd a b))) /\
+  (forall P a, ed_valid P (Ed_phi a) -> ed_valid (ed_neg OEd P) (Ed_phi (pneg a))) /\
+  (forall P Q a b, ed_valid P (Ed_phi a) -> ed_valid Q (Ed_phi b) ->
+     ed_valid (ed_add OEd KEd P (ed_neg OEd Q)) (Ed_phi (psub a b))) /\
+  (forall P s a, ed_valid P (Ed_phi a) ->
+     ed_valid (ed_mul OEd KEd (val s) P) (Ed_phi (smul s a))) /\
+  (forall s : zq ed_L, ed_valid (ed_mul OEd KEd (val s) (ed_base OEd KEd)) (Ed_phi s)) /\
+  (forall P Q a b, ed_valid P (Ed_phi a) -> ed_valid Q (Ed_phi b) ->
+     (ed_eqb OEd P Q = true <-> a = b)) /\
+  (forall P Q a b, ed_valid P (Ed_phi a) -> ed_valid Q (Ed_phi b) ->
+     (ed_encode OEd P = ed_encode OEd Q <-> a = b)).
+Proof. exact ed25519_dlog_model_refined_by_reference. Qed.
+Print Assumptions C01_ed25519_dlog_model_refined_by_reference.
+
+Theorem C01_ed25519_encoding_separates_logarithms : forall a b : zq ed_L,
+  ed_encode_xy OEd (fst (Ed_phi a)) (snd (Ed_phi a)) = ed_encode_xy OEd (fst (Ed_phi b)) (snd (Ed_phi b)) ->
+  a = b.
+Proof. exact Ed_phi_encode_inj. Qed.
+Print Assumptions C01_ed25519_encoding_separates_logarithms.
+
+(* the small-order points the EdDSA torsion clauses are about *)
+Theorem C01_ed25519_small_order_points :
+  ed_on_curve_pt Ed_T2 /\ ed_nmul 2 Ed_T2 = (zzero, zone) /\ Ed_T2 <> (zzero, zone) /\
+  (forall k, Ed_phi k <> Ed_T2) /\
+  ed_on_curve_pt Ed_T4 /\ ed_nmul 4 Ed_T4 = (zzero, zone) /\ ed_nmul 2 Ed_T4 = Ed_T2 /\
+  Ed_T4 <> (zzero, zone) /\ (forall k, Ed_phi k <> Ed_T4) /\
+  (forall k : zq ed_L, ed_nmul (Z.to_nat ed_L) (Ed_phi k) = (zzero, zone)).
+Proof. exact Ed25519_small_order_points. Qed.
+Print Assumptions C01_ed25519_small_order_points.
+
+Theorem C01_ed25519_torsion8_not_multiple_of_base : forall P,
+  ed_nmul 8 P = (zzero, zone) -> P <> (zzero, zone) -> forall k, Ed_phi k <> P.
+Proof. exact Ed25519_torsion8_not_in_image. Qed.
+Print Assumptions C01_ed25519_torsion8_not_multiple_of_base.
+
+(* the definitions used in the statements above, spelled out *)
+Theorem C01_ed25519_order_definitions :
+  Ed_B = (eX (ed_base OEd KEd), eY (ed_base OEd KEd)) /\
+  (forall k : zq ed_L, Ed_phi k = ed_nmul (Z.to_nat (val k)) Ed_B) /\
+  (forall (k : Z) (a : zq ed_p * zq ed_p), Ed_zmul k a =
+     (if k <? 0 then Ed_pneg (ed_nmul (Z.to_nat (- k)) a) else ed_nmul (Z.to_nat k) a)) /\
+  (forall a : zq ed_p * zq ed_p, ed_nmul 0 a = (zzero, zone)) /\
+  (forall n (a : zq ed_p * zq ed_p), ed_nmul (S n) a = Ed_padd a (ed_nmul n a)) /\
+  Ed_T2 = (zzero, zopp zone) /\ Ed_T4 = (c_sqrtm1 KEd, zzero) /\
+  zmul (c_sqrtm1 KEd) (c_sqrtm1 KEd) = zopp (@zone ed_p).
+Proof. exact Ed25519_order_definitions. Qed.
+Print Assumptions C01_ed25519_order_definitions.
